@@ -1,7 +1,7 @@
 (* Entry points of the model, addressed by name over the line protocol. *)
 From Coq Require Import String.
 From Coq Require Import NArith ZArith List Bool.
-From DI Require Import Result PyStr Val Codec Version Dpkg.
+From DI Require Import Result PyStr Val Codec Version Dpkg Deps.
 Import ListNotations.
 Open Scope N_scope.
 
@@ -115,10 +115,77 @@ Definition dispatch (fn : str) (args : list val) : val :=
   | _ => VNone
   end.
 
+(* ---------- deps ---------- *)
+
+Fixpoint rel_to_val (r : rel) : val :=
+  match r with
+  | Rel n a => VList [VStr (lit "R"); VStr n; VStrs a]
+  | VRel n o v a => VList [VStr (lit "V"); VStr n; VStr o; VStr v; VStrs a]
+  | OrRel rs => VList [VStr (lit "O"); VList (map rel_to_val rs)]
+  | AndRel rs => VList [VStr (lit "A"); VList (map rel_to_val rs)]
+  end.
+
+Definition val_strs (l : list val) : list str :=
+  flat_map (fun v => match v with VStr s => [s] | _ => [] end) l.
+
+Fixpoint val_to_rel (v : val) : rel :=
+  match v with
+  | VList [VStr t; VStr n; VList a] => Rel n (val_strs a)
+  | VList [VStr t; VStr n; VStr o; VStr x; VList a] => VRel n o x (val_strs a)
+  | VList [VStr t; VList rs] =>
+      if str_eqb t (lit "O") then OrRel (map val_to_rel rs) else AndRel (map val_to_rel rs)
+  | _ => AndRel []
+  end.
+
+Definition val_to_cand (v : val) : cand :=
+  match v with
+  | VStr s => CandStr s
+  | VList [VInt e; VStr u; VStr r] => CandVer (mkVersion (Z.to_N e) u r)
+  | _ => CandNone
+  end.
+
+Definition VTv (o : option bool) : val := match o with Some b => VBool b | None => VNone end.
+
+Definition dispatch_deps (fn : str) (args : list val) : option val :=
+  match args with
+  | [VStr a] =>
+      if fn_is "rel_expr_match" fn then
+        Some (match rel_expr_match a with
+              | None => VNone
+              | Some (n, v, ar) => VList [VStr n; VOpt VStr v; VOpt VStr ar]
+              end)
+      else if fn_is "split_on_ops" fn then Some (VStrs (split_on_ops a))
+      else if fn_is "parse_relationship" fn then Some (VRes rel_to_val (parse_relationship a))
+      else if fn_is "parse_depends" fn then
+        Some (VRes (fun r => VList [rel_to_val r; VStr (rel_str r); VStrs (rel_names r);
+                                    VRes (fun r' => VList [rel_to_val r'; VStr (rel_str r')])
+                                         (parse_depends (rel_str r))])
+                   (parse_depends a))
+      else None
+  | [a; b; c] =>
+      if fn_is "rel_matches" fn then
+        match b with
+        | VStr name => Some (VRes VTv (rel_matches (val_to_rel a) name (val_to_cand c)))
+        | _ => None
+        end
+      else if fn_is "match_relationships" fn then
+        match a, c with
+        | VStr name, VList sets =>
+            Some (VRes VTv (match_relationships name (val_to_cand b) (map val_to_rel sets)))
+        | _, _ => None
+        end
+      else None
+  | _ => None
+  end.
+
 Definition dispatch_all (fn : str) (args : list val) : val :=
   match dispatch_version fn args with
   | Some v => v
-  | None => dispatch fn args
+  | None =>
+      match dispatch_deps fn args with
+      | Some v => v
+      | None => dispatch fn args
+      end
   end.
 
 Definition run (fn : str) (args : list val) : str := show_val (dispatch_all fn args).
